@@ -231,7 +231,7 @@ def gen_layers(rng: random.Random, tier: str) -> dict:
         p["exp"] = rng.choice(["builtin", "builtin", "context", "data"])
         return p
 
-    return {"steps": [placement(), placement()], "formula": rng.choice([
+    return {"ctx_as": rng.choice(["dict", "dict", "layered", "layered2"]), "steps": [placement(), placement()], "formula": rng.choice([
         "0 + v + u + w", "0 + log(v) + u", "0 + exp(w) + v:u", "0 + I(v + u) + log(w)", "0 + {v * 2} + exp(u) + log(w)", "0 + log(exp(v)) + w"])}
 
 
@@ -274,7 +274,14 @@ def judge_layers(case) -> Outcome:
         expect_fail = "exp(" in f and p["exp"] == "data"  # a data column shadows the callable: calling it must fail
         try:
             with quiet():
-                mm = model_matrix(f, df, context=ctx)
+                ctx_obj = ctx
+                if case.get("ctx_as") in ("layered", "layered2"):
+                    # the same names reach the library inside an unnamed layered mapping (what capturing a caller's frame, or
+                    # LayeredMapping(locals(), globals()), produces): their source is still the caller's context
+                    from formulaic.utils.layered_mapping import LayeredMapping
+
+                    ctx_obj = LayeredMapping(ctx) if case["ctx_as"] == "layered" else LayeredMapping(dict(list(ctx.items())[:1]), dict(list(ctx.items())[1:]))
+                mm = model_matrix(f, df, context=ctx_obj)
         except FactorEvaluationError as e:
             if expect_fail:
                 out.see("data_shadows_callable")
